@@ -209,7 +209,15 @@ func newStreamCodec(rwc io.ReadWriteCloser, f streamEncoding) *streamCodec {
 
 func (c *streamCodec) Encode(ctx context.Context, m *capnp.Message) error {
 	c.wc.setWriteContext(ctx)
-	return c.enc.Encode(m)
+	start := c.wc.written
+	err := c.enc.Encode(m)
+	if err != nil && c.wc.written != start {
+		// Part of the frame reached the stream (a message is written with
+		// several Writes, and the encoder wraps their errors): anything
+		// written after it would be parsed as garbage by the peer.
+		return partialWriteError{err}
+	}
+	return err
 }
 
 func (c *streamCodec) Decode(ctx context.Context) (*capnp.Message, error) {
@@ -367,6 +375,7 @@ type ctxWriteCloser struct {
 	io.WriteCloser
 	ctx                 context.Context
 	partialWriteTimeout time.Duration
+	written             uint64 // total bytes accepted by the underlying writer
 }
 
 // Write bytes to a writer while making a best effort to
@@ -375,6 +384,7 @@ type ctxWriteCloser struct {
 // ignore the Done signal to avoid partial writes.
 func (wc *ctxWriteCloser) Write(b []byte) (int, error) {
 	n, err := wc.write(b)
+	wc.written += uint64(n)
 	if n > 0 && n < len(b) {
 		err = partialWriteError{err}
 	}
